@@ -17,7 +17,7 @@ Local Open Scope string_scope.
 
 Record jobs := {
   jo_name : ident;
-  jo_status : N;                          (* 0 observed; 3 the generated code of the type does not type-check; 5 not observed *)
+  jo_status : N;                          (* 0 observed; 3 the generated code of the type does not type-check; 5 sibling errors / not observed; 6 T or NewT missing *)
   jo_has_json : bool;                     (* T declares MarshalJSON and UnmarshalJSON *)
   jo_shadow : list (string * string * string);   (* fields of _json_T: Go name, printed type, tag text *)
   jo_err : bool;                          (* Marshal / Unmarshal returned an error or panicked *)
@@ -196,6 +196,13 @@ Definition Pb_jstruct (c : jcase) (sv : view) (o : jobs) : bool :=
                let expected :=
                  match find (fun l => path_eqb (ls_path l) p) ls with
                  | Some l => if ls_dash l then passoc p (jo_before o)
+                             else if negb (needs_json c sd ls) && tag_omitempty (ls_tag l) &&
+                                     (match passoc p (jo_leaves o), passoc p (jo_zeros o) with
+                                      | Some t, Some z => String.eqb t z | _, _ => false end)
+                             (* no JSON code and the member left out (omitempty, v's field zero): encoding/json's own
+                                decoder leaves w's field alone (the generated code would assign the zero of its fresh
+                                shadow struct); into a zero w both give v's value *)
+                             then passoc p (jo_before o)
                              else if ls_exp l || (ls_get l && ls_set l) then passoc p (jo_leaves o)
                              else if ls_set l then passoc p (jo_zeros o)
                              else passoc p (jo_before o)
